@@ -133,3 +133,77 @@ func VH_C10_weak() {
 	vAssert(!ok && c3 == nil, "C10.weak.no-resurrection")
 	vAssert(h.shutdowns == 1 && vLocksHeld() == 0, "C10.weak.after")
 }
+
+// ---- two goroutines (vPar: every interleaving of their synchronisation operations) ----
+
+// vCallHook upgrades a weak reference to itself while a call is in progress
+type vCallHook struct {
+	vHook
+	w        *WeakClient
+	inCall   bool
+	upgraded *Client
+	upOK     bool
+	duringCall int
+}
+
+func (h *vCallHook) Send(ctx context.Context, s Send) (*Answer, ReleaseFunc) {
+	h.inCall = true
+	h.sends++
+	h.upgraded, h.upOK = h.w.AddRef()
+	h.inCall = false
+	return ErrorAnswer(s.Method, newError("vCallHook")), func() {}
+}
+
+func (h *vCallHook) Shutdown() {
+	h.shutdowns++
+	if h.inCall {
+		h.duringCall++
+	}
+	h.locksAtShutdown += vLocksHeld()
+}
+
+// a call races with the Release of the last strong reference
+func VH_C10_par_call_vs_release() {
+	h := &vCallHook{}
+	c := NewClient(h)
+	h.w = c.WeakRef()
+	vPar(func() {
+		c.SendCall(context.Background(), Send{})
+	}, func() {
+		c.Release()
+	})
+	vReach("joined")
+	vAssert(h.duringCall == 0, "C10.par.no-shutdown-while-a-call-is-in-progress")
+	if h.upOK && h.upgraded != nil {
+		// the upgrade happened while a strong reference still existed: it keeps the capability alive
+		vAssert(h.shutdowns == 0, "C10.par.upgraded-reference-keeps-alive")
+		h.upgraded.Release()
+	}
+	vAssert(h.shutdowns == 1, "C10.par.shutdown-exactly-once")
+	vAssert(vLocksHeld() == 0, "C10.par.no-lock-held")
+}
+
+// two goroutines release the two references of one capability
+func VH_C10_par_release_release() {
+	h := &vHook{}
+	c := NewClient(h)
+	c2 := c.AddRef()
+	vPar(func() { c.Release() }, func() { c2.Release() })
+	vReach("joined")
+	vAssert(h.shutdowns == 1, "C10.par.two-releases-one-shutdown")
+	vAssert(vLocksHeld() == 0 && h.locksAtShutdown == 0, "C10.par.two-releases.no-lock-held")
+}
+
+// AddRef races with Release of another reference
+func VH_C10_par_addref_release() {
+	h := &vHook{}
+	c := NewClient(h)
+	c2 := c.AddRef()
+	var c3 *Client
+	vPar(func() { c3 = c.AddRef() }, func() { c2.Release() })
+	vReach("joined")
+	vAssert(h.shutdowns == 0, "C10.par.addref-keeps-alive")
+	c.Release()
+	c3.Release()
+	vAssert(h.shutdowns == 1, "C10.par.addref.shutdown-after-all-released")
+}
